@@ -48,7 +48,7 @@ TourC1 == UNION {{With(c, <<AC(t, dl)>>) : c \in TwoCfgs, dl \in {x \in Lens : t
 TourC2 == {With(c, <<AC(t, 20), AC(u, 8)>>) : c \in TwoCfgs, t \in Types, u \in Types}
 TourD == {c \in FewCfgs : TRUE}                 \* no command at all
 \* large payloads: many blocks
-TourE == {With(c, <<AC(2, dl), AC(t, 36)>>) : c \in TwoCfgs, t \in {7, 9}, dl \in IF Full THEN {4096, 20000, 65536, 70001} ELSE {4096, 20001}}
+TourE == {With(c, <<AC(2, dl), AC(t, 36)>>) : c \in TwoCfgs, t \in {7, 9}, dl \in IF Full THEN {4096, 20000, 65536, 70001} ELSE {4096, 70001}}
 Tour == TourA \cup TourB \cup TourB2 \cup TourC1 \cup TourC2 \cup TourD \cup TourE
 
 \* lemma of the tour (checked as an invariant): every 16-byte stream end x block 1..MaxBlocks is reached by tour B
